@@ -703,9 +703,15 @@ func HashMapOfValueCopy(vm *Thread, target *HashMapOfValue, source *HashMapOfVal
 		if i == -1 {
 			panic("no room in target hashmap during copy")
 		}
+		slot := target.Table[i]
+		if slot.Key().IsUndefined() {
+			// a new key: count it, and count the slot when it was completely empty
+			target.Elements++
+			if slot.Value().IsUndefined() {
+				target.OccupiedSlots++
+			}
+		}
 		target.Table[i] = entry
-		target.OccupiedSlots++
-		target.Elements++
 	}
 
 	return value.Undefined
@@ -726,9 +732,15 @@ func HashMapOfValueCopyInterface(vm *Thread, target *HashMapOfValue, source Hash
 		if i == -1 {
 			panic("no room in target hashmap during copy")
 		}
+		slot := target.Table[i]
+		if slot.Key().IsUndefined() {
+			// a new key: count it, and count the slot when it was completely empty
+			target.Elements++
+			if slot.Value().IsUndefined() {
+				target.OccupiedSlots++
+			}
+		}
 		target.Table[i] = entry
-		target.OccupiedSlots++
-		target.Elements++
 	}
 
 	return value.Undefined
